@@ -71,6 +71,10 @@ func tryReplay(w *World, r *OblResult, workdir string) *replayOutcome {
 			return replayFaults(w, r, workdir)
 		}
 	}
+	if g.fn != nil && g.fn.Pkg != nil && g.fn.Pkg.Pkg.Path() == modPath+"/internal/planner" && strings.Contains(r.O.Func, "docValueLess") {
+		return replayGoTest(w, workdir, "internal/planner", "zz_c08_order_test.go", "harness/planner/zz_c08_order_test.go", "^TestGovcC08MultiKeyOrder$",
+			"two documents that tie on the first ordering key, second key ASC and DESC")
+	}
 	if g.fn != nil && g.fn.Pkg != nil && g.fn.Pkg.Pkg.Path() == modPath+"/internal/datastore" && hasTag(r.O.Tags, "C16") {
 		return replayRace(w, r, workdir)
 	}
@@ -201,3 +205,24 @@ func (g *gen) modelTerms() []string {
 }
 
 func sortStrings(s []string) { sort.Strings(s) }
+
+// replayGoTest: run a fixed scenario test of /verif/harness against the current tree.
+func replayGoTest(w *World, workdir, pkgDir, injectAs, harnessFile, run, what string) *replayOutcome {
+	ov := mergedOverlay(workdir, map[string]string{filepath.Join(w.repo, pkgDir, injectAs): filepath.Join(verifDir, harnessFile)})
+	cmd := exec.Command("go", "test", "-overlay", ov, "-vet=off", "-count=1", "-timeout", "120s", "-run", run, "./"+pkgDir)
+	cmd.Dir = w.repo
+	cmd.Env = append(os.Environ(), "GOFLAGS=-mod=mod", "GOPROXY=off")
+	b, err := cmd.CombinedOutput()
+	ro := &replayOutcome{Test: "go test -overlay … -run " + run + " ./" + pkgDir, Inputs: what, Output: truncate(string(b), 3000)}
+	switch {
+	case err != nil && strings.Contains(string(b), "--- FAIL"):
+		ro.Outcome = "reproduced"
+	case err == nil:
+		ro.Outcome = "not-reproduced"
+		ro.Note = "the scenario passes on the current tree"
+	default:
+		ro.Outcome = "not-attempted"
+		ro.Note = "scenario test failed to build or run"
+	}
+	return ro
+}
